@@ -365,3 +365,296 @@ Proof. induction ops as [|o r IH]; intros st H; [exact H|]. rewrite hrun_cons. c
 Theorem sorted_inv : sorted_inv_stmt.
 Proof. intros ops. apply hrun_inv. apply hinit_inv. Qed.
 Print Assumptions sorted_inv.
+
+(* ================= relation to the abstract machine ================= *)
+(* PGNs of live objects are non-negative (unsigned in the C++) *)
+Definition tabnn (st:hstate) : Prop := forall i, oalive (htab st i) = true -> 0 <= opgn (htab st i).
+(* object table = abstract map; callback flags agree *)
+Definition tabrel (st:hstate) (a:astate) : Prop :=
+  (forall i, match amap a i with
+             | Some x => oalive (htab st i) = true /\ opgn (htab st i) = apgn x /\ obus (htab st i) = abus x
+             | None => oalive (htab st i) = false /\ obus (htab st i) = None
+             end) /\
+  (forall b, hcb st b = acb a b).
+Definition sim (st:hstate) (a:astate) : Prop := hinv st /\ tabnn st /\ tabrel st a.
+
+Lemma hstep_tabnn st o : tabnn st -> op_ok o -> tabnn (fst (hstep st o)).
+Proof.
+  intros T Ok. destruct o as [i p ob|i b|i|i|b m|b on]; cbn [hstep].
+  - destruct (oalive (htab st i)) eqn:A; cbn [fst]; auto.
+    assert (T1: tabnn (set_tab st i {| oalive := true; opgn := p; obus := None |})).
+    { intros j. cbn [htab set_tab]. destruct (Nat.eqb_spec j i); simpl; auto. }
+    destruct ob as [b|]; auto. intros j. destruct (attach_obj_alive (set_tab st i {| oalive := true; opgn := p; obus := None |}) i b j) as [-> ->].
+    apply T1.
+  - destruct (oalive (htab st i)) eqn:A; cbn [fst]; auto. intros j. destruct (attach_obj_alive st i b j) as [-> ->]. apply T.
+  - destruct (oalive (htab st i)) eqn:A; cbn [fst]; auto. intros j. destruct (detach_obj_alive st i j) as [-> ->]. apply T.
+  - destruct (oalive (htab st i)) eqn:A; cbn [fst]; auto. intros j. cbn [htab set_tab].
+    destruct (Nat.eqb_spec j i); simpl; [discriminate|]. destruct (detach_obj_alive st i j) as [-> ->]. apply T.
+  - exact T.
+  - exact T.
+Qed.
+
+Lemma aupd_same f i v : aupd f i v i = v.
+Proof. unfold aupd. rewrite Nat.eqb_refl. reflexivity. Qed.
+Lemma aupd_other f i v j : j <> i -> aupd f i v j = f j.
+Proof. intros N. unfold aupd. destruct (Nat.eqb_spec j i); [contradiction|reflexivity]. Qed.
+
+Lemma hstep_tabrel st a o : tabrel st a -> tabrel (fst (hstep st o)) (astep a o).
+Proof.
+  intros [T C]. destruct o as [i p ob|i b|i|i|b m|b on]; cbn [hstep astep].
+  - pose proof (T i) as Ti. destruct (amap a i) as [x|] eqn:Ea.
+    + destruct Ti as (A & _). rewrite A. cbn [fst]. split; auto.
+    + destruct Ti as (A & Bn). rewrite A. cbn [fst].
+      set (st1 := set_tab st i {| oalive := true; opgn := p; obus := None |}).
+      split.
+      * intros j. cbn [amap]. destruct (Nat.eq_dec j i) as [->|Nj].
+        -- rewrite aupd_same. cbn [apgn abus]. destruct ob as [b|].
+           ++ destruct (attach_obj_alive st1 i b i) as [-> ->]. rewrite attach_obj_bus.
+              unfold st1. cbn [htab set_tab]. rewrite Nat.eqb_refl. simpl. auto.
+           ++ unfold st1. cbn [htab set_tab]. rewrite Nat.eqb_refl. simpl. auto.
+        -- rewrite aupd_other by exact Nj.
+           assert (E: htab (match ob with Some b => attach_obj st1 i b | None => st1 end) j = htab st j).
+           { destruct ob as [b|]; [rewrite attach_obj_other by exact Nj|]; unfold st1; cbn [htab set_tab];
+               destruct (Nat.eqb_spec j i); try contradiction; reflexivity. }
+           rewrite E. apply T.
+      * intros b'. cbn [acb]. destruct ob as [b|]; [rewrite attach_obj_cb|]; apply C.
+  - pose proof (T i) as Ti. destruct (amap a i) as [x|] eqn:Ea.
+    + destruct Ti as (A & P & Bx). rewrite A. cbn [fst]. split.
+      * intros j. cbn [amap]. destruct (Nat.eq_dec j i) as [->|Nj].
+        -- rewrite aupd_same. cbn [apgn abus]. destruct (attach_obj_alive st i b i) as [-> ->]. rewrite attach_obj_bus. auto.
+        -- rewrite aupd_other by exact Nj. rewrite attach_obj_other by exact Nj. apply T.
+      * intros b'. cbn [acb]. rewrite attach_obj_cb. apply C.
+    + destruct Ti as (A & Bn). rewrite A. cbn [fst]. split; auto.
+  - pose proof (T i) as Ti. destruct (amap a i) as [x|] eqn:Ea.
+    + destruct Ti as (A & P & Bx). rewrite A. cbn [fst]. split.
+      * intros j. cbn [amap]. destruct (Nat.eq_dec j i) as [->|Nj].
+        -- rewrite aupd_same. cbn [apgn abus]. destruct (detach_obj_alive st i i) as [-> ->]. rewrite detach_obj_bus. auto.
+        -- rewrite aupd_other by exact Nj. rewrite detach_obj_other by exact Nj. apply T.
+      * intros b'. cbn [acb]. rewrite detach_obj_cb. apply C.
+    + destruct Ti as (A & Bn). rewrite A. cbn [fst]. split; auto.
+  - pose proof (T i) as Ti. destruct (oalive (htab st i)) eqn:A; cbn [fst].
+    + split.
+      * intros j. cbn [amap]. destruct (Nat.eq_dec j i) as [->|Nj].
+        -- rewrite aupd_same. cbn [htab set_tab]. rewrite Nat.eqb_refl. simpl. auto.
+        -- rewrite aupd_other by exact Nj. cbn [htab set_tab]. destruct (Nat.eqb_spec j i); [contradiction|].
+           rewrite detach_obj_other by exact Nj. apply T.
+      * intros b'. cbn [acb hcb set_tab]. rewrite detach_obj_cb. apply C.
+    + split; auto. intros j. cbn [amap]. destruct (Nat.eq_dec j i) as [->|Nj].
+      * rewrite aupd_same. destruct (amap a i); [destruct Ti as (F & _); discriminate|destruct Ti as (_ & Bn); split; [exact A|exact Bn]].
+      * rewrite aupd_other by exact Nj. apply T.
+  - cbn [fst]. split; auto.
+  - cbn [fst]. split; [exact T|]. intros b'. cbn [acb hcb set_cb]. rewrite C. reflexivity.
+Qed.
+
+Lemma hstep_sim st a o : sim st a -> op_ok o -> sim (fst (hstep st o)) (astep a o).
+Proof.
+  intros (H & N & T) Ok. split; [apply hstep_inv; auto|]. split; [apply hstep_tabnn; auto|apply hstep_tabrel; auto].
+Qed.
+
+Lemma init_sim : sim hinit ainit.
+Proof.
+  split; [apply hinit_inv|]. split; [intros i; simpl; discriminate|].
+  split; [intros i; simpl; auto|intros b; reflexivity].
+Qed.
+
+Lemma hrun_sim ops : forall st a, sim st a -> ops_ok ops -> sim (fst (hrun st ops)) (fst (arun a ops)).
+Proof.
+  induction ops as [|o r IH]; intros st a S Ok; [exact S|].
+  inversion Ok as [|? ? Oo Or]; subst. rewrite hrun_cons, arun_cons. cbn [fst]. apply IH; auto. apply hstep_sim; auto.
+Qed.
+
+(* ---------- RunMessageHandlers against the abstract requirement ---------- *)
+Lemma bus_list_nonneg st b : hinv st -> tabnn st -> Forall (fun x => 0 <= hpgn x) (hls st b).
+Proof.
+  intros H N. destruct (H b) as (_ & _ & AL & _). apply Forall_forall. intros x Hx. destruct (AL x Hx) as [A P].
+  rewrite P. apply N. exact A.
+Qed.
+
+Lemma run_filter st b m : hinv st -> tabnn st -> 0 <= m ->
+  run_handlers st b m = (if hcb st b then [CB] else []) ++ map CH (map hid (filter (want m) (hls st b))).
+Proof.
+  intros H N Hm. unfold run_handlers. rewrite dispatch_filter; auto.
+  - destruct (H b) as (S & _); exact S.
+  - apply bus_list_nonneg; auto.
+Qed.
+
+Lemma in_filter_ids m l i :
+  In i (map hid (filter (want m) l)) <-> exists y, In y l /\ hid y = i /\ want m y = true.
+Proof.
+  rewrite in_map_iff. split.
+  - intros (y & E & Hy). apply filter_In in Hy. exists y. tauto.
+  - intros (y & Hy & E & W). exists y. split; auto. apply filter_In. auto.
+Qed.
+
+Lemma run_agree st a b m : sim st a -> 0 <= m -> agree (run_handlers st b m) (expected a b m).
+Proof.
+  intros (H & N & T & C) Hm. rewrite run_filter by auto.
+  destruct (H b) as (S & ND & AL & IFF).
+  set (ids := map hid (filter (want m) (hls st b))).
+  assert (NDi: NoDup (map CH ids)) by (apply CH_inj_nodup; apply filter_ids_nodup; exact ND).
+  intros c. rewrite count_app. destruct c as [|i]; cbn [expected].
+  - rewrite (count_notin CB (map CH ids)).
+    + rewrite <- C. destruct (hcb st b); reflexivity.
+    + intros Hin. apply in_map_iff in Hin as (z & Hz & _). discriminate.
+  - replace (count (CH i) (if hcb st b then [CB] else [])) with 0%nat by (destruct (hcb st b); reflexivity).
+    cbn [Nat.add].
+    assert (IN: In (CH i) (map CH ids) <-> In i ids).
+    { split; [intros Hin; apply in_map_iff in Hin as (z & Hz & Hin); inversion Hz; subst; exact Hin|apply in_map]. }
+    pose proof (T i) as Ti. destruct (amap a i) as [x|] eqn:Ea.
+    + destruct Ti as (A & P & Bx).
+      destruct (attached x b && pgn_matches (apgn x) m) eqn:W.
+      * apply andb_prop in W as [W1 W2]. apply count_nodup; auto. apply IN. unfold ids. apply in_filter_ids.
+        assert (Hb: obus (htab st i) = Some b).
+        { rewrite Bx. unfold attached in W1. destruct (abus x) as [b'|]; [|discriminate].
+          destruct (bus_eqb_spec b' b); [congruence|discriminate]. }
+        apply IFF in Hb. apply in_map_iff in Hb as (y & E & Hy). exists y. split; auto. split; auto.
+        unfold want. destruct (AL y Hy) as [_ Py]. rewrite Py, E, P. exact W2.
+      * apply count_notin. rewrite IN. unfold ids. rewrite in_filter_ids. intros (y & Hy & E & Wy).
+        assert (W1: attached x b = true).
+        { assert (Hb: obus (htab st i) = Some b) by (apply IFF; rewrite <- E; apply in_map; exact Hy).
+          unfold attached. rewrite <- Bx, Hb. destruct (bus_eqb_spec b b); congruence. }
+        assert (W2: pgn_matches (apgn x) m = true).
+        { unfold want in Wy. destruct (AL y Hy) as [_ Py]. rewrite Py, E, P in Wy. exact Wy. }
+        rewrite W1, W2 in W. discriminate.
+    + destruct Ti as (A & Bn). apply count_notin. rewrite IN. unfold ids. rewrite in_filter_ids. intros (y & Hy & E & _).
+      assert (Hb: obus (htab st i) = Some b) by (apply IFF; rewrite <- E; apply in_map; exact Hy). congruence.
+Qed.
+
+Lemma step_agree st a o : sim st a -> op_ok o -> agree (snd (hstep st o)) (aout a o).
+Proof.
+  intros S Ok. destruct o as [i p ob|i b|i|i|b m|b on]; cbn [hstep aout];
+    try (destruct (oalive (htab st i)); intros c; reflexivity).
+  - cbn [snd]. apply run_agree; auto.
+  - intros c; reflexivity.
+Qed.
+
+Lemma refines_gen ops : forall st a, sim st a -> ops_ok ops -> Forall2 agree (snd (hrun st ops)) (snd (arun a ops)).
+Proof.
+  induction ops as [|o r IH]; intros st a S Ok; [constructor|].
+  inversion Ok as [|? ? Oo Or]; subst. rewrite hrun_cons, arun_cons. cbn [snd]. constructor.
+  - apply step_agree; auto.
+  - apply IH; auto. apply hstep_sim; auto.
+Qed.
+
+(* ================= the statements ================= *)
+Theorem dispatch_exact : dispatch_exact_stmt.
+Proof.
+  intros ops b m Ok Hm. cbn [hstep snd]. apply run_agree; auto. apply hrun_sim; auto. apply init_sim.
+Qed.
+Print Assumptions dispatch_exact.
+
+Theorem refines : refines_stmt.
+Proof. intros ops Ok. apply refines_gen; auto. apply init_sim. Qed.
+Print Assumptions refines.
+
+Theorem dispatch_list_order : dispatch_list_order_stmt.
+Proof.
+  intros ops b m Ok Hm st. cbn [hstep snd].
+  destruct (hrun_sim ops hinit ainit init_sim Ok) as (H & N & _). apply run_filter; auto.
+Qed.
+Print Assumptions dispatch_list_order.
+
+Theorem dispatch_order : dispatch_order_stmt.
+Proof.
+  intros ops b m Ok Hm a. cbn [hstep snd].
+  destruct (hrun_sim ops hinit ainit init_sim Ok) as (H & N & T & C). fold a in T, C.
+  set (st := fst (hrun hinit ops)) in *.
+  destruct (d1_blocks m (hls st b)) as (zs & ps & E & Fz & Fp).
+  destruct (H b) as (_ & _ & AL & _).
+  assert (K: forall p l, Forall (fun x => In x (hls st b) /\ hpgn x = p) l -> Forall (has_pgn a p) (map hid l)).
+  { intros p l F. apply Forall_forall. intros i Hi. apply in_map_iff in Hi as (y & Ey & Hy).
+    rewrite Forall_forall in F. destruct (F y Hy) as [Hin Hp]. destruct (AL y Hin) as [A P].
+    pose proof (T i) as Ti. rewrite <- Ey. rewrite <- Ey in Ti. unfold has_pgn.
+    destruct (amap a (hid y)) as [x|]; [|destruct Ti; congruence].
+    exists x. split; auto. destruct Ti as (_ & Px & _). congruence. }
+  exists (map hid zs), (map hid ps). split.
+  - unfold run_handlers. rewrite E, map_app, <- (C b). reflexivity.
+  - split; apply K; auto.
+Qed.
+Print Assumptions dispatch_order.
+
+(* ---------- destroyed / detached handlers, re-attaching ---------- *)
+(* abstract machine: an identity that is not attached anywhere stays so until it is created or attached *)
+Definition unatt (a:astate) (i:nat) : Prop := match amap a i with Some x => abus x = None | None => True end.
+
+Lemma astep_absent a o i : amap a i = None -> (forall p ob, o <> HCreate i p ob) -> amap (astep a o) i = None.
+Proof.
+  intros E NC. destruct o as [j p ob|j b|j|j|b m|b on]; cbn [astep]; auto.
+  - destruct (amap a j) eqn:Ej; auto. cbn [amap]. destruct (Nat.eq_dec i j) as [->|N]; [exfalso; eapply NC; reflexivity|].
+    rewrite aupd_other; auto.
+  - destruct (amap a j) eqn:Ej; auto. cbn [amap]. destruct (Nat.eq_dec i j) as [->|N]; [congruence|]. rewrite aupd_other; auto.
+  - destruct (amap a j) eqn:Ej; auto. cbn [amap]. destruct (Nat.eq_dec i j) as [->|N]; [congruence|]. rewrite aupd_other; auto.
+  - cbn [amap]. destruct (Nat.eq_dec i j) as [->|N]; [apply aupd_same|]. rewrite aupd_other; auto.
+Qed.
+
+Lemma arun_absent ops : forall a i, amap a i = None -> (forall p ob, ~ In (HCreate i p ob) ops) ->
+  amap (fst (arun a ops)) i = None.
+Proof.
+  induction ops as [|o r IH]; intros a i E NC; [exact E|]. rewrite arun_cons. cbn [fst]. apply IH.
+  - apply astep_absent; auto. intros p ob ->. apply (NC p ob). left; reflexivity.
+  - intros p ob Hin. apply (NC p ob). right; exact Hin.
+Qed.
+
+Lemma astep_unatt a o i : unatt a i -> (forall p ob, o <> HCreate i p ob) -> (forall b, o <> HAttach i b) -> unatt (astep a o) i.
+Proof.
+  unfold unatt. intros U NC NA. destruct o as [j p ob|j b|j|j|b m|b on]; cbn [astep]; auto.
+  - destruct (amap a j) eqn:Ej; auto. cbn [amap]. destruct (Nat.eq_dec i j) as [->|N]; [exfalso; eapply NC; reflexivity|].
+    rewrite aupd_other; auto.
+  - destruct (amap a j) eqn:Ej; auto. cbn [amap]. destruct (Nat.eq_dec i j) as [->|N]; [exfalso; eapply NA; reflexivity|].
+    rewrite aupd_other; auto.
+  - destruct (amap a j) eqn:Ej; auto. cbn [amap]. destruct (Nat.eq_dec i j) as [->|N]; [rewrite aupd_same; reflexivity|].
+    rewrite aupd_other; auto.
+  - cbn [amap]. destruct (Nat.eq_dec i j) as [->|N]; [rewrite aupd_same; exact I|]. rewrite aupd_other; auto.
+Qed.
+
+Lemma arun_unatt ops : forall a i, unatt a i -> (forall p ob, ~ In (HCreate i p ob) ops) -> (forall b, ~ In (HAttach i b) ops) ->
+  unatt (fst (arun a ops)) i.
+Proof.
+  induction ops as [|o r IH]; intros a i U NC NA; [exact U|]. rewrite arun_cons. cbn [fst]. apply IH.
+  - apply astep_unatt; auto.
+    + intros p ob ->. apply (NC p ob). left; reflexivity.
+    + intros b ->. apply (NA b). left; reflexivity.
+  - intros p ob Hin. apply (NC p ob). right; exact Hin.
+  - intros b Hin. apply (NA b). right; exact Hin.
+Qed.
+
+Lemma unatt_not_expected a i b m : unatt a i -> expected a b m (CH i) = 0%nat.
+Proof. unfold unatt, expected, attached. destruct (amap a i) as [x|]; auto. intros ->. reflexivity. Qed.
+
+Theorem destroyed_never_called : destroyed_never_called_stmt.
+Proof.
+  intros ops1 i ops2 b m Ok Hm NC. apply count_zero_notin. rewrite (dispatch_exact _ b m Ok Hm (CH i)).
+  apply unatt_not_expected. unfold unatt. rewrite arun_app_fst, arun_cons. cbn [fst].
+  rewrite arun_absent; auto. cbn [astep amap]. apply aupd_same.
+Qed.
+Print Assumptions destroyed_never_called.
+
+Theorem detached_never_called : detached_never_called_stmt.
+Proof.
+  intros ops1 i ops2 b m Ok Hm NC NA. apply count_zero_notin. rewrite (dispatch_exact _ b m Ok Hm (CH i)).
+  apply unatt_not_expected. rewrite arun_app_fst, arun_cons. cbn [fst]. apply arun_unatt; auto.
+  unfold unatt. cbn [astep]. destruct (amap (fst (arun ainit ops1)) i) as [x|] eqn:E.
+  - cbn [amap]. rewrite aupd_same. reflexivity.
+  - rewrite E. exact I.
+Qed.
+Print Assumptions detached_never_called.
+
+Lemma ops_ok_app l1 l2 : ops_ok l1 -> ops_ok l2 -> ops_ok (l1 ++ l2).
+Proof. intros A B. apply Forall_app. auto. Qed.
+
+Theorem reattach_moves : reattach_moves_stmt.
+Proof.
+  intros ops i b m Ok Hm st.
+  assert (Ok2: ops_ok (ops ++ [HAttach i b])) by (apply ops_ok_app; auto; repeat constructor).
+  assert (Ea: fst (arun ainit (ops ++ [HAttach i b])) = astep (fst (arun ainit ops)) (HAttach i b)).
+  { rewrite arun_app_fst. reflexivity. }
+  split.
+  - apply count_zero_notin. unfold st. rewrite (dispatch_exact _ (other b) m Ok2 Hm (CH i)). rewrite Ea.
+    cbn [astep expected]. destruct (amap (fst (arun ainit ops)) i) as [x|] eqn:E.
+    + cbn [amap]. rewrite aupd_same. unfold attached. cbn [abus]. destruct b; reflexivity.
+    + rewrite E. reflexivity.
+  - intros x E W. unfold st. rewrite (dispatch_exact _ b m Ok2 Hm (CH i)). rewrite Ea.
+    cbn [astep expected]. rewrite E. cbn [amap]. rewrite aupd_same. unfold attached. cbn [abus apgn].
+    rewrite W. destruct b; reflexivity.
+Qed.
+Print Assumptions reattach_moves.
